@@ -94,8 +94,8 @@ impl TimeFilter for ts::TimeSpan {
             if start < end {
                 end
             } else {
-                end.add_hours(24)
-                    .expect("overflow during TimeSpan resolution")
+                // Spans that would end after 48:00 are cut at the end of the next day.
+                end.add_hours(24).unwrap_or(ExtendedTime::MIDNIGHT_48)
             }
         };
 
